@@ -35,20 +35,21 @@ open GqlModel GqlModel.Grammar
 
 /-- every syntax error of M is reported at the start of one of the tokens of the input (index `k`), or, for
 `k = |toks|`, at the EOF offset -/
-theorem syntax_error_at_token_start (toks : List Token) (eofPos pos : Nat) (b : Bool)
-    (h : parseToks toks eofPos = .error (.syntax pos b)) :
+theorem syntax_error_at_token_start (toks : List Token) (eofPos pos : Nat) (b : Bool) (l : Nat)
+    (h : parseToks toks eofPos = .error (.syntax pos b l)) :
     ∃ k, k ≤ toks.length ∧ pos = (match toks.drop k with | t :: _ => t.start | [] => eofPos) :=
   parseToks_error_at_token h
 
 /-- the same for `parser.ParseValue` (`parseValue` on the initial state) -/
-theorem value_error_at_token_start (c : Bool) (toks : List Token) (eofPos pos : Nat) (b : Bool)
-    (h : parseValue c (initState toks eofPos) = .error (.syntax pos b)) :
+theorem value_error_at_token_start (c : Bool) (toks : List Token) (eofPos pos : Nat) (b : Bool) (l : Nat)
+    (h : parseValue c (initState toks eofPos) = .error (.syntax pos b l)) :
     ∃ k, k ≤ toks.length ∧ pos = (match toks.drop k with | t :: _ => t.start | [] => eofPos) :=
-  (inferInstance : ErrAt (parseValue c)).err _ _ _ h
+  ((inferInstance : ErrAt (parseValue c)).err _ _ _ _ h).1
 
 /-- `parseType` has no failing path: a malformed type reference is never reported where it occurs (D-03b) -/
-theorem type_reference_reports_no_error (σ : PState) (pos : Nat) (b : Bool) : parseTypeOpt σ ≠ .error (.syntax pos b) :=
-  parseTypeFuel_no_syntax_error _ σ pos b
+theorem type_reference_reports_no_error (σ : PState) (pos : Nat) (b : Bool) (l : Nat) :
+    parseTypeOpt σ ≠ .error (.syntax pos b l) :=
+  parseTypeFuel_no_syntax_error _ σ pos b l
 
 /-- prefixes of viable prefixes are viable -/
 theorem viablePrefix_take (ts : List Token) (k : Nat) (h : ViablePrefix ts) : ViablePrefix (ts.take k) := by
@@ -63,10 +64,115 @@ theorem accepted_prefixes_viable (toks : List Token) (eofPos : Nat) (d : Documen
   viablePrefix_take toks k ⟨[], eofPos, d, by simpa using parseToks_sound h⟩
 
 /-- a reported syntax error means the token list is not a document (for any EOF offset) -/
-theorem syntax_error_not_document (toks : List Token) (eofPos pos : Nat) (b : Bool)
-    (h : parseToks toks eofPos = .error (.syntax pos b)) : ¬ ∃ d, DerivesDoc toks eofPos d := by
+theorem syntax_error_not_document (toks : List Token) (eofPos pos : Nat) (b : Bool) (l : Nat)
+    (h : parseToks toks eofPos = .error (.syntax pos b l)) : ¬ ∃ d, DerivesDoc toks eofPos d := by
   rintro ⟨d, hd⟩
   rw [parseToks_complete hd] at h
   cases h
+
+/-! ## Lazy lexing: a parser rejection at token k is reported even if token k+1 is malformed
+
+`parser.Parse` lexes one token ahead (`advance` returns the lexical error of the NEXT token at once), so on a text
+whose tokens `toks` are followed by a malformed lexeme two errors compete.  `parseLazy toks` is the model's verdict
+(`GqlModel/Parser.lean`): M runs on `toks`; an error M raises while at least one token is still unconsumed, and which
+does not blame the non-existent token after `toks`, is the parser's own rejection and is what is returned; in every
+other case (M advanced or looked past the last token, or would accept) the lexical error is returned.  That this is
+what the real parser does is checked by the C03 differential on every text with a lexical error (stream `lexafter`:
+every token sequence followed by a malformed lexeme of every class in LF/CR/CRLF layouts). -/
+
+/-- the `left` recorded in an error never exceeds the number of tokens: it counts unconsumed tokens -/
+theorem error_left_le (toks : List Token) (eofPos pos : Nat) (b : Bool) (l : Nat)
+    (h : parseDocument (initState toks eofPos) = .error (.syntax pos b l)) : l ≤ toks.length :=
+  ((inferInstance : ErrAt parseDocument).err _ _ _ _ h).2
+
+/-- **ordering**: if M rejects while the current token is still one of the real tokens (`0 < left`) and blames a
+real token, that rejection is reported — the malformed lexeme after `toks` is never looked at -/
+theorem parser_rejection_before_lexical_error (toks : List Token) (pos : Nat) (b : Bool) (l : Nat)
+    (h : parseDocument (initState toks (freshEOF toks)) = .error (.syntax pos b l)) (hl : 0 < l)
+    (hp : pos ≠ freshEOF toks) : parseLazy toks = .syntax pos := by
+  simp [parseLazy, h, hl, hp]
+
+/-- conversely the lexical error is reported exactly when M accepts, has consumed every token, or blames the token
+after the last one -/
+theorem lexical_error_reported_iff (toks : List Token) :
+    parseLazy toks = .lexError ↔
+      ((∃ r, parseDocument (initState toks (freshEOF toks)) = .ok r) ∨
+       (∃ pos b l, parseDocument (initState toks (freshEOF toks)) = .error (.syntax pos b l) ∧ (l = 0 ∨ pos = freshEOF toks)) ∨
+       parseDocument (initState toks (freshEOF toks)) = .error .noEOF) := by
+  unfold parseLazy
+  match hr : parseDocument (initState toks (freshEOF toks)) with
+  | .ok r => simp
+  | .error (.syntax pos b l) =>
+    simp only [reduceCtorEq, exists_false, false_or, or_false, Except.error.injEq, PErr.syntax.injEq]
+    constructor
+    · intro h
+      split at h
+      · cases h
+      · rename_i hc
+        refine ⟨pos, b, l, ⟨rfl, rfl, rfl⟩, ?_⟩
+        by_cases hl : l = 0
+        · exact .inl hl
+        · refine .inr (Classical.byContradiction fun hne => hc ⟨Nat.pos_of_ne_zero hl, hne⟩)
+    · rintro ⟨pos', b', l', ⟨rfl, rfl, rfl⟩, hc⟩
+      have : ¬ (0 < l ∧ pos ≠ freshEOF toks) := by
+        rintro ⟨h1, h2⟩
+        rcases hc with rfl | h3
+        · omega
+        · exact h2 h3
+      simp [this]
+  | .error .fuel => simp
+  | .error .noEOF => simp
+
+theorem freshEOF_gt (toks : List Token) : ∀ t ∈ toks, t.start < freshEOF toks := by
+  unfold freshEOF
+  have key : ∀ (ts : List Token) (m : Nat), m ≤ ts.foldl (fun m t => max m (t.start + 1)) m ∧
+      ∀ t ∈ ts, t.start < ts.foldl (fun m t => max m (t.start + 1)) m := by
+    intro ts
+    induction ts with
+    | nil => intro m; exact ⟨Nat.le_refl _, by simp⟩
+    | cons x xs ih =>
+      intro m
+      obtain ⟨h1, h2⟩ := ih (max m (x.start + 1))
+      refine ⟨by simp only [List.foldl_cons]; omega, ?_⟩
+      intro t ht
+      simp only [List.foldl_cons]
+      rcases List.mem_cons.mp ht with rfl | ht
+      · omega
+      · exact h2 t ht
+  exact (key toks 0).2
+
+/-- a reported parser rejection points at the start of one of the real tokens — never at or beyond the malformed lexeme -/
+theorem lazy_syntax_error_at_real_token (toks : List Token) (pos : Nat) (h : parseLazy toks = .syntax pos) :
+    ∃ t ∈ toks, pos = t.start := by
+  unfold parseLazy at h
+  match hr : parseDocument (initState toks (freshEOF toks)) with
+  | .ok r => simp [hr] at h
+  | .error (.syntax p b l) =>
+    simp only [hr] at h
+    split at h
+    · rename_i hc
+      simp only [LazyOut.syntax.injEq] at h
+      subst h
+      obtain ⟨⟨k, hk, hpos⟩, _⟩ := (inferInstance : ErrAt parseDocument).err _ _ _ _ hr
+      unfold posAt at hpos
+      simp only [initState] at hpos
+      cases hd : toks.drop k with
+      | nil => rw [hd] at hpos; exact absurd hpos hc.2
+      | cons t r =>
+        rw [hd] at hpos
+        exact ⟨t, List.mem_of_mem_drop (by rw [hd]; simp), hpos⟩
+    · cases h
+  | .error .fuel => simp [hr] at h
+  | .error .noEOF => simp [hr] at h
+
+/-- the lazy-lexing verdict is never "out of fuel" -/
+theorem lazy_never_fuel (toks : List Token) : parseLazy toks ≠ .fuel := by
+  unfold parseLazy
+  match hr : parseDocument (initState toks (freshEOF toks)) with
+  | .ok r => simp
+  | .error (.syntax p b l) => simp only; split <;> simp
+  | .error .fuel =>
+    exact absurd hr ((inferInstance : NFb toks.length parseDocument).nf (initState toks (freshEOF toks)) (Nat.le_refl _))
+  | .error .noEOF => simp
 
 end GqlModel.Parser
